@@ -8,6 +8,9 @@ import (
 )
 
 var props = map[string]*kernel.Prop{
+	"C08": {ID: "C08", Engine: "lakesim", RunOne: runC08},
+	"C09": {ID: "C09", Engine: "lakesim", RunOne: runC09},
+	"C16": {ID: "C16", Engine: "lakesim", RunOne: runC16},
 	"C12": {ID: "C12", Engine: "lakesim", RunOne: runC12},
 	"C13": {ID: "C13", Engine: "lakesim", RunOne: runC13a},
 	"C14": {ID: "C14", Engine: "lakesim", RunOne: runC14},
